@@ -297,6 +297,7 @@ func c16Same(orig, dec cty.Value, path string) string {
 }
 
 func c16Case(u *U, v cty.Value, ct *TS) {
+	defer tolerateOptFor(v)()
 	u.Eval(1)
 	u.DistinctN(1)
 	desc := func() string { return fmt.Sprintf("value %s against constraint %s", goStr(v), ct.Canon()) }
@@ -355,6 +356,15 @@ func runC16(c *Ctx) {
 		hv := hv
 		c.Unit(func(u *U) {
 			for _, ct := range dynVariants(hv.t, 8) {
+				c16Case(u, hv.v, ct)
+			}
+		})
+	}
+	// untyped nulls below tuples and objects, hand-built types with optional attributes (shared with C15)
+	for _, hv := range untypedNullValues(true) {
+		hv := hv
+		c.Unit(func(u *U) {
+			for _, ct := range dynVariants(hv.t, 16) {
 				c16Case(u, hv.v, ct)
 			}
 		})
